@@ -30,11 +30,13 @@ type pkgInfo struct {
 	fset  *token.FileSet
 	files map[string]*ast.File
 	funcs map[string]*ast.FuncDecl // "Recv.Name" or "Name"
+	// "Type.field" for struct fields whose type is one of sync/atomic's typed values
+	atomicFields map[string]bool
 }
 
 func loadPkg(dir string) *pkgInfo {
 	fset := token.NewFileSet()
-	pi := &pkgInfo{fset: fset, files: map[string]*ast.File{}, funcs: map[string]*ast.FuncDecl{}}
+	pi := &pkgInfo{fset: fset, files: map[string]*ast.File{}, funcs: map[string]*ast.FuncDecl{}, atomicFields: map[string]bool{}}
 	ents, err := os.ReadDir(dir)
 	if err != nil {
 		fatal("read %s: %v", dir, err)
@@ -54,6 +56,24 @@ func loadPkg(dir string) *pkgInfo {
 		}
 		pi.files[n] = f
 		for _, d := range f.Decls {
+			if gd, ok := d.(*ast.GenDecl); ok && gd.Tok == token.TYPE {
+				for _, sp := range gd.Specs {
+					ts := sp.(*ast.TypeSpec)
+					st, ok := ts.Type.(*ast.StructType)
+					if !ok {
+						continue
+					}
+					for _, fl := range st.Fields.List {
+						if se, ok := fl.Type.(*ast.SelectorExpr); ok {
+							if id, ok := se.X.(*ast.Ident); ok && id.Name == "atomic" {
+								for _, nm := range fl.Names {
+									pi.atomicFields[ts.Name.Name+"."+nm.Name] = true
+								}
+							}
+						}
+					}
+				}
+			}
 			fd, ok := d.(*ast.FuncDecl)
 			if !ok {
 				continue
